@@ -45,7 +45,7 @@ def pin_case(draw):
         a['p'] = draw(st.one_of(st.integers(3, 12), st.sampled_from([list(p) for p in PAIRS if p[0] > p[1]]),
                                 st.sampled_from([1.5, 2.5, 3.5, 1.25])))
     if name == 'power':
-        PQ = PAIRS + [(2, 1), (3, 1), (4, 1), (5, 1), (6, 1)]
+        PQ = PAIRS + [(2, 1), (3, 1), (4, 1), (5, 1), (6, 1), (1, 1), (2, 2), (1, 1)]      # p == q: exponent one, the entry is |u|
         mode = draw(st.sampled_from(['scalar', 'vector', 'rows', 'rows', 'cols']))
         if mode in ('rows', 'cols'):
             k = 4                                   # 2 x 2 argument, exponents per row (2,1) or per column (2,)
